@@ -338,7 +338,7 @@ class Run:
         if src == 'S':
             p = m.labels[0]
             # documented-by-construction relabels of the single-phase accessors
-            if which == 'vle' and p == 's': relabel = True
+            if which == 'vle' and p in ('s', 'S'): relabel = True
             if which == 'lle' and p not in ('l', 'L'): relabel = True
             if which == 'sle' and p not in ('l', 's'): relabel = True
             level = 'totals' if relabel else 'family'
@@ -351,6 +351,9 @@ class Run:
         if not isinstance(solver, cls):
             ctx.fail(f'op.solver|{region}|type', f'{which} returned {type(solver).__name__}')
         m.last = which
+        # the object handed out is the solver *of this stream*: bound to its current flow data and thermal condition
+        if solver.imol is not s.imol or solver.thermal_condition is not s.thermal_condition:
+            ctx.fail(f'op.solver|{region}|detached-solver', f'.{which} returned a solver that is not bound to the stream\'s current data (after {self.hist[-1:] })')
         if src == 'M':
             target = M.sort_phases(m.labels + need)
             labels, rows = M.convert_rows(m.labels, m.rows, target, m.pk.n)
@@ -469,11 +472,20 @@ class Run:
 
     def op_TP(self):
         ch, ctx, s, m = self.ch, self.ctx, self.s, self.m
-        if ch.bool('isT'):
-            m.T = float(ch.float('T', *M.T_RANGE)); ctx.call('op.T', setattr, s, 'T', m.T, region=f'kind={m.kind}')
-        else:
-            m.P = float(ch.logfloat('P', 4, 6.69)); ctx.call('op.P', setattr, s, 'P', m.P, region=f'kind={m.kind}')
-        ctx.cell('op:TP'); self.hist.append(['TP'])
+        isT = ch.bool('isT')
+        v = float(ch.float('T', *M.T_RANGE)) if isT else float(ch.logfloat('P', 4, 6.69))
+        obj = s; via = 'parent'
+        if m.kind == 'M' and ch.bool('via_sub'):
+            # T and P are shared with the phase sub-streams: setting them through s[p] must reach the parent
+            p = self.pick_phase_for_view()
+            if p is not None and m.subs.get(p) != 'stale':
+                obj = ctx.call('view.get', s.__getitem__, p, region='kind=M'); via = 'sub'
+                m.subs.setdefault(p, 'ok')
+        ctx.call('op.TP', setattr, obj, 'T' if isT else 'P', v, region=f'kind={m.kind},via={via}')
+        if isT: m.T = v
+        else: m.P = v
+        m.last = f'{"T" if isT else "P"} via {via}'
+        ctx.cell('op:TP'); ctx.cell('TP:via=' + via); self.hist.append(['TP', via])
 
     def op_empty(self):
         ctx, s, m = self.ctx, self.s, self.m
@@ -580,5 +592,5 @@ def prop_history(ch, ctx):
 
 
 PROPS = {
-    'history': (prop_history, 4000, 160000),
+    'history': (prop_history, 8000, 150000),
 }
